@@ -94,6 +94,7 @@ class Ctx:
         self.n_feas = 0
         self.cur_globals = []
         self.inline_depth = 0
+        self.loop_cache = {}
 
     # ------------------------------------------------------------------------------------------------ sources
     def _accessors(self):
